@@ -152,7 +152,9 @@ def family_ctor_fault(tier, seed, n=None):
 # sibling sub-objects of one class and object lists with cross-level references (C08)
 # ------------------------------------------------------------------------------------------
 def world_siblings(rnd):
-    sub = {"base": "", "fields": [fld("x", 2, False), fld("z", 1, False, rand=rnd.random() < 0.5, init=1)],
+    sub = {"base": "", "fields": [fld("x", 2, False), fld("z", 1, False, rand=rnd.random() < 0.5, init=1),
+                                  # every sub-object owns a list of its own (lengths diverge through edits)
+                                  {"name": "il", "kind": "list", "w": 2, "signed": False, "rand": False, "init": [1], "cap": 4}],
            "blocks": [{"name": "sc", "dynamic": False, "body": [E(B("ne", F("x"), lit(rnd.randrange(4))))]}]}
     r = [rnd.random() < 0.8 for _ in range(3)]
     rels = ["lt", "le", "ne", "gt"]
@@ -165,6 +167,11 @@ def world_siblings(rnd):
               {"name": "t2", "dynamic": False, "body": [E(B(rnd.choice(rels), F("s2.x"), F("s3.x")))]},
               {"name": "t3", "dynamic": False, "body": [E(B(rnd.choice(rels), F("ol[0].x"), F("ol[1].x")))]},
               {"name": "t4", "dynamic": False, "body": [E(B(rnd.choice(["eq", "ne", "le"]), F("y"), F(rnd.choice(["s3.x", "ol[1].x", "s1.x"]))))]}]
+    # nested foreach: the inner list is owned by the element of the outer one
+    blocks.append({"name": "t6", "dynamic": False,
+                   "body": [{"k": "foreach", "l": "ol", "v": "e", "it": True, "idx": False,
+                             "body": [{"k": "foreach", "l": "il", "of": "e", "v": "q", "it": True, "idx": False,
+                                       "body": [E(B(rnd.choice(["ne", "le"]), {"k": "it", "v": "q", "p": ""}, F("y")))]}]}]})
     if rnd.random() < 0.5:
         blocks.append({"name": "t5", "dynamic": False,
                        "body": [{"k": "foreach", "l": "ol", "v": "e", "it": True, "idx": False,
@@ -183,6 +190,12 @@ def family_siblings(tier, seed, n=None):
         paths = ["o1.s1.x", "o1.s2.x", "o1.s3.x", "o1.ol[0].x", "o1.ol[1].x", "o1.y"]      # 12 bits: sampled to cap
         allp = paths + ["o1.s1.z", "o1.s2.z", "o1.s3.z", "o1.ol[0].z", "o1.ol[1].z"]
         ops = [{"op": "construct", "o": "o1"}, {"op": "construct", "o": "o2"}]
+        # the inner lists of the two list elements get different lengths
+        for _ in range(rnd.randint(1, 2)):
+            ops.append({"op": "list", "kind": "l_append", "p": "o1.ol[1].il", "vs": [bits(rnd.randrange(4), 2)]})
+        if rnd.random() < 0.3:
+            ops.append({"op": "list", "kind": "l_clear", "p": "o1.ol[0].il"})
+        il_paths = []
         for i in range(rnd.randint(2, 4)):
             if rnd.random() < 0.5:
                 p = rnd.choice(["s1.x", "s2.x", "s3.x", "ol[0].x", "ol[1].x"])
@@ -190,7 +203,11 @@ def family_siblings(tier, seed, n=None):
             ops.append({"op": "call", "call": rnd.choice([mcall("o1"), mcall("o2"),
                                                           {"kind": "free", "roots": ["o1.s2"], "owner": "", "inline": []},
                                                           wcall([E(B("ne", F("s1.x"), F("ol[0].x")))], "o1")])})
-            ops.append({"op": "probe", "call": wcall([], "o1"), "paths": allp, "mode": "around", "nsol": 4, "cap": 200})
-        ops.append({"op": "probe", "call": wcall([], "o1"), "paths": allp, "cap": 600})
+            if rnd.random() < 0.35:
+                # the object list is emptied and refilled with fresh objects: ol[K] now denotes the NEW element
+                ops.append({"op": "ol_refill", "p": "o1.ol"})
+                ops.append({"op": "call", "call": mcall("o1")})
+            ops.append({"op": "probe", "call": wcall([], "o1"), "paths": "ALL:o1", "mode": "around", "nsol": 4, "cap": 200})
+        ops.append({"op": "probe", "call": wcall([], "o1"), "paths": "ALL:o1", "cap": 600})
         out.append({"id": "SB/%s/%d" % ("core" if core else "s%d" % seed, t), "world": world, "ops": ops, "tags": []})
     return out
